@@ -380,7 +380,7 @@ def rebuild(c):
 
 def replay(ctx, payload, prop="C01"):
     c = payload.get("case", payload)
-    if c.get("kind") == "multidoc":
+    if c.get("kind") in ("multidoc", "multidoc-sequence"):
         from harness import multidoc
         return multidoc.replay(prop, c)
     if c.get("probe") == "aliasing":
